@@ -88,6 +88,8 @@ type Lemma struct {
 	IsAxiom bool
 	Pkg     string
 	Uses    []string
+	Induct  string // non-empty: body is P(k) with free variable k; proved by induction on k >= 0, used as forall k >= 0
+	Defs    bool   // include lemma-scoped SMT definitions when used in a function VC? (never) / when proving (always)
 }
 
 type SpecFunc struct {
@@ -98,9 +100,10 @@ type SpecFunc struct {
 }
 
 type SmtDef struct {
-	Mode string // bv|int|all
-	Text string
-	Pkg  string
+	Mode  string // bv|int|all
+	Scope string // "" (everywhere), "lemma" (only when proving lemmas), "func" (only in function VCs)
+	Text  string
+	Pkg   string
 }
 
 type ContractFile struct {
@@ -226,6 +229,11 @@ func ParseContractFile(path, pkg string) (*ContractFile, error) {
 						l.Uses = append(l.Uses, strings.Split(hdr[k+1], ",")...)
 						k++
 					}
+				case "induction":
+					if k+1 < len(hdr) {
+						l.Induct = hdr[k+1]
+						k++
+					}
 				}
 			}
 			cl, err := mk(strings.TrimSpace(c.text[j+1:]), c.line)
@@ -255,7 +263,14 @@ func ParseContractFile(path, pkg string) (*ContractFile, error) {
 					text = strings.TrimSpace(text[len(p):])
 				}
 			}
-			cf.Smt = append(cf.Smt, &SmtDef{Mode: mode, Text: text, Pkg: pkg})
+			scope := ""
+			for _, p := range []string{"lemma", "func"} {
+				if strings.HasPrefix(text, p+" ") {
+					scope = p
+					text = strings.TrimSpace(text[len(p):])
+				}
+			}
+			cf.Smt = append(cf.Smt, &SmtDef{Mode: mode, Scope: scope, Text: text, Pkg: pkg})
 		default:
 			if cur == nil {
 				return nil, fmt.Errorf("%s:%d: clause %q outside func", path, c.line, c.kw)
@@ -427,12 +442,12 @@ func splitTop(s string, sep byte) []string {
 type Expr interface{}
 
 type (
-	EIdent  struct{ Name string }
-	EInt    struct{ Val string } // decimal or 0x..
-	EBool   struct{ Val bool }
-	ENil    struct{}
-	EStr    struct{ Val string }
-	EUnary  struct {
+	EIdent struct{ Name string }
+	EInt   struct{ Val string } // decimal or 0x..
+	EBool  struct{ Val bool }
+	ENil   struct{}
+	EStr   struct{ Val string }
+	EUnary struct {
 		Op string
 		X  Expr
 	}
